@@ -52,3 +52,76 @@ pub const POINT_LOOKUP_LOCKED_BEFORE_INSERT: u32 = 8;
 pub const POINT_WAIT_WRITE_LOCK: u32 = 20;
 /// waiting for the inode map's read lock
 pub const POINT_WAIT_READ_LOCK: u32 = 21;
+
+/// every atomic operation on an inode's lookup count
+pub const POINT_REFCOUNT_OP: u32 = 9;
+
+/// `AtomicU64` with a yield point in front of every operation: whatever code touches an inode's
+/// lookup count, now or after a later change, is visible to the scheduler without further hooks.
+#[derive(Debug)]
+pub struct YieldAtomicU64(std::sync::atomic::AtomicU64);
+
+#[allow(missing_docs)]
+impl YieldAtomicU64 {
+    pub fn new(v: u64) -> Self {
+        YieldAtomicU64(std::sync::atomic::AtomicU64::new(v))
+    }
+    pub fn load(&self, o: std::sync::atomic::Ordering) -> u64 {
+        point(POINT_REFCOUNT_OP);
+        self.0.load(o)
+    }
+    pub fn store(&self, v: u64, o: std::sync::atomic::Ordering) {
+        point(POINT_REFCOUNT_OP);
+        self.0.store(v, o)
+    }
+    pub fn swap(&self, v: u64, o: std::sync::atomic::Ordering) -> u64 {
+        point(POINT_REFCOUNT_OP);
+        self.0.swap(v, o)
+    }
+    pub fn fetch_add(&self, v: u64, o: std::sync::atomic::Ordering) -> u64 {
+        point(POINT_REFCOUNT_OP);
+        self.0.fetch_add(v, o)
+    }
+    pub fn fetch_sub(&self, v: u64, o: std::sync::atomic::Ordering) -> u64 {
+        point(POINT_REFCOUNT_OP);
+        self.0.fetch_sub(v, o)
+    }
+    pub fn compare_exchange(
+        &self,
+        c: u64,
+        n: u64,
+        s: std::sync::atomic::Ordering,
+        f: std::sync::atomic::Ordering,
+    ) -> Result<u64, u64> {
+        point(POINT_REFCOUNT_OP);
+        self.0.compare_exchange(c, n, s, f)
+    }
+    pub fn compare_exchange_weak(
+        &self,
+        c: u64,
+        n: u64,
+        s: std::sync::atomic::Ordering,
+        f: std::sync::atomic::Ordering,
+    ) -> Result<u64, u64> {
+        point(POINT_REFCOUNT_OP);
+        self.0.compare_exchange(c, n, s, f)
+    }
+    pub fn fetch_update<F: FnMut(u64) -> Option<u64>>(
+        &self,
+        s: std::sync::atomic::Ordering,
+        f: std::sync::atomic::Ordering,
+        mut func: F,
+    ) -> Result<u64, u64> {
+        // load / compare-exchange loop with a yield point before each step, like the real one
+        let mut cur = self.load(f);
+        loop {
+            match func(cur) {
+                None => return Err(cur),
+                Some(n) => match self.compare_exchange(cur, n, s, f) {
+                    Ok(v) => return Ok(v),
+                    Err(v) => cur = v,
+                },
+            }
+        }
+    }
+}
